@@ -19,6 +19,8 @@ type Ctx struct {
 	Seed     int64
 	Sched    bool   // binary was built with the scheduler overlay
 	ReplayOf string // non-empty: replay this file instead of exploring
+	Shard    int    // worker mode: this process explores scenario shard Shard of Shards
+	Shards   int
 }
 
 func (c *Ctx) Thorough() bool { return c.Tier == "thorough" }
